@@ -53,6 +53,15 @@ Section Lists.
   Lemma sl_damage_hp R (GR : sl_runner R) s id src d s' : damage_hp cfg R s id src d = Some s' -> same_lists s s'.
   Proof. unfold damage_hp. destruct (get_unit _ _); [apply sl_hp_change; exact GR|intros H; inversion H; subst; apply same_lists_refl]. Qed.
 
+  Lemma sl_heal_hp R (GR : sl_runner R) s id src a s' : heal_hp cfg R s id src a = Some s' -> same_lists s s'.
+  Proof. unfold heal_hp. destruct (get_unit _ _); [apply sl_hp_change; exact GR|intros H; inversion H; subst; apply same_lists_refl]. Qed.
+  Lemma sl_do_heals R (GR : sl_runner R) : forall ts s self a s', do_heals cfg R s self a ts = Some s' -> same_lists s s'.
+  Proof.
+    induction ts as [|t ts IH]; intros s self a s' H; cbn [do_heals] in H; [inversion H; subst; apply same_lists_refl|].
+    destruct (heal_hp cfg R s t self a) as [s1|] eqn:E1; [|discriminate].
+    eapply same_lists_trans; [eapply sl_heal_hp; eassumption|eapply IH; exact H].
+  Qed.
+
   Lemma sl_do_hits R (GR : sl_runner R) : forall ts s self dmg s',
     do_hits cfg R s self dmg ts = Some s' -> same_lists s s'.
   Proof.
@@ -103,6 +112,8 @@ Section Lists.
     - destruct (Turn.step _ _ _). inversion H; subst. sl.
     - destruct (get_unit _ _); inversion H; subst; sl.
     - inversion H; subst. sl.
+    - match type of H with (if ?c then _ else _) = _ => destruct c end; [inversion H; subst; apply same_lists_refl|].
+      eapply sl_do_heals; eassumption.
   Qed.
 
   Lemma sl_exec_list R (GR : sl_runner R) lm : forall ops s self p s',
@@ -278,6 +289,18 @@ Section DeadFinal.
     apply dm_hp_change; [exact GR|]. rewrite (get_unit_id _ _ _ E). exact E.
   Qed.
 
+  Lemma dm_heal_hp R (GR : dm_runner R) s id src a s' : heal_hp cfg R s id src a = Some s' -> dead_mono s s'.
+  Proof.
+    unfold heal_hp. destruct (get_unit (units s) id) as [u|] eqn:E; [|intros H; inversion H; subst; apply dm_refl].
+    apply dm_hp_change; [exact GR|]. rewrite (get_unit_id _ _ _ E). exact E.
+  Qed.
+  Lemma dm_do_heals R (GR : dm_runner R) : forall ts s self a s', do_heals cfg R s self a ts = Some s' -> dead_mono s s'.
+  Proof.
+    induction ts as [|t ts IH]; intros s self a s' H; cbn [do_heals] in H; [inversion H; subst; apply dm_refl|].
+    destruct (heal_hp cfg R s t self a) as [s1|] eqn:E1; [|discriminate].
+    eapply dm_trans; [eapply dm_heal_hp; eassumption|eapply IH; exact H].
+  Qed.
+
   Lemma dm_do_hits R (GR : dm_runner R) : forall ts s self dmg s',
     do_hits cfg R s self dmg ts = Some s' -> dead_mono s s'.
   Proof.
@@ -330,6 +353,8 @@ Section DeadFinal.
     - destruct (get_unit (units s) _) as [u|] eqn:E; inversion H; subst; [|apply dm_refl].
       apply dm_upd. cbn. intros u0 H0 Hd. rewrite (get_unit_id _ _ _ E) in H0. congruence.
     - inversion H; subst. apply dm_units; reflexivity.
+    - match type of H with (if ?c then _ else _) = _ => destruct c end; [inversion H; subst; apply dm_refl|].
+      eapply dm_do_heals; eassumption.
   Qed.
 
   Lemma dm_exec_list R (GR : dm_runner R) lm : forall ops s self p s',
